@@ -105,7 +105,7 @@ func (r *recLogger) LogError(o ...interface{}) {
 
 type scenario struct {
 	Name          string
-	Family        string // string | multiple | writers | json | async
+	Family        string // string | multiple | writers | json | async | async-std
 	Plain         bool
 	Calls         int // calls per producer
 	Prod          int // producers
@@ -162,6 +162,8 @@ func body(sc scenario) func(x *gosim.Exec) {
 			bodyJSON(x, w, sc)
 		case "async":
 			bodyAsync(x, w, sc)
+		case "async-std":
+			bodyAsyncStd(x, w, sc)
 		}
 	}
 }
@@ -466,6 +468,70 @@ func bodyJSON(x *gosim.Exec, w *world, sc scenario) {
 	}
 }
 
+// asynchronous logger to the standard streams (NewAsynchronousStdLogger): std_logger.go is rewritten by rule R7 of the
+// instrumenter, so every piece written to os.Stdout / os.Stderr is a scheduling point and lands here. Producers log while
+// another thread announces a new log source (which the std writer prints on its own line, bypassing the ring): the stream,
+// cut at line ends, consists of source announcements and of lines holding exactly one message.
+var sourceLineRe = regexp.MustCompile(`^Source: [^\s]*$`)
+
+func bodyAsyncStd(x *gosim.Exec, w *world, sc scenario) {
+	var stdout []byte
+	verifrt.StdSink = func(stream string, piece []byte) {
+		if stream == "stdout" {
+			stdout = append(stdout, piece...)
+		}
+	}
+	x.Cleanup(func() { verifrt.StdSink = nil })
+	l, err := logs.NewAsynchronousStdLogger("lsrc", sc.Ring, time.Millisecond, "src")
+	if err != nil {
+		x.Violate("setup", "%v", err)
+		return
+	}
+	x.Cleanup(func() { _ = l.Close() })
+	done := make(chan struct{}, sc.Prod+1)
+	for p := 0; p < sc.Prod; p++ {
+		p := p
+		x.Go(fmt.Sprintf("p%d", p), 0, func() {
+			defer func() { done <- struct{}{} }()
+			for c := 0; c < sc.Calls; c++ {
+				x.Gate(0, fmt.Sprintf("p%d: Log %d", p, c))
+				l.Log(fmt.Sprintf("msg-p%d-%d", p, c))
+			}
+		})
+	}
+	x.Go("announcer", 0, func() {
+		defer func() { done <- struct{}{} }()
+		for c := 0; c < sc.Calls; c++ {
+			time.Sleep(time.Millisecond) // the poller is draining by now
+			x.Gate(0, fmt.Sprintf("announcer: SetLogSource %d", c))
+			_ = l.SetLogSource(fmt.Sprintf("job-%d", c))
+		}
+	})
+	x.Go("closer", 0, func() {
+		for i := 0; i < sc.Prod+1; i++ {
+			<-done
+		}
+		time.Sleep(20 * time.Millisecond)
+		_ = l.Close()
+		lines, announcements, messages := strings.Split(strings.TrimRight(string(stdout), "\n"), "\n"), 0, 0
+		for _, line := range lines {
+			line = strings.TrimRight(line, "\r")
+			toks := tokenRe.FindAllString(line, -1)
+			switch {
+			case line == "":
+			case sourceLineRe.MatchString(line):
+				announcements++
+			case len(toks) == 1 && !strings.Contains(line, "Source: "):
+				messages++
+			default:
+				x.Violate("interleaved-within-a-line:logger=async-std", "a line of the standard output is neither one source announcement nor one message: %q (whole output %q)", line, string(stdout))
+				return
+			}
+		}
+		w.outcome = fmt.Sprintf("announcements=%d messages=%d", announcements, messages)
+	})
+}
+
 var droppedRe = regexp.MustCompile(`Logger dropped (\d+) messages`)
 
 func bodyAsync(x *gosim.Exec, w *world, sc scenario) {
@@ -552,6 +618,7 @@ func scenarios() []scenario {
 	for _, ring := range []int{1, 2, 4} {
 		add(scenario{Name: fmt.Sprintf("async/ring=%d/2 producers x 2", ring), Family: "async", Ring: ring, Prod: 2, Calls: 2, Bound: 2})
 	}
+	add(scenario{Name: "async-std/ring=4/2 producers x 2 + a source announcer", Family: "async-std", Ring: 4, Prod: 2, Calls: 2, Bound: 2})
 	add(scenario{Name: "async/ring=4/2 producers x 2, the sinks refuse an empty source", Family: "async", Ring: 4, Prod: 2, Calls: 2, Bound: 1, RefusedSource: true})
 	if ev.Thorough() {
 		add(scenario{Name: "string/plain/3 producers x 1", Family: "string", Plain: true, Prod: 3, Calls: 1, Bound: 3})
